@@ -26,7 +26,7 @@ ASSUMPTIONS = [
     "a rejected write still counts as 'written' for the user/once clauses; C16.continue compares against a second run without rejections",
 ]
 PROBES = ["override.value", "override.disabled", "override.nondefault_setting", "override.disable_nondefault", "current.unreadable", "current.above_default",
-          "rejected_write", "rejected_value_write", "response_later_than_command_timeout", "write_config_failed_on_slow_response", "reject_status.INVALID_CALL", "reject_status.NO_BUFFERS", "reject_status.BAD_ARGUMENT", "reject_status.INVALID_ID", "buffer_count_written", "version_gt_14", "schema_default_injected"]
+          "rejected_write", "rejected_value_write", "plain_write_after_overrides", "response_later_than_command_timeout", "write_config_failed_on_slow_response", "reject_status.INVALID_CALL", "reject_status.NO_BUFFERS", "reject_status.BAD_ARGUMENT", "reject_status.INVALID_ID", "buffer_count_written", "version_gt_14", "schema_default_injected"]
 
 VERSIONS = list(range(4, 17))
 LEVELS = ("unreadable", 0, 11, 12, 13, 200)
@@ -257,13 +257,21 @@ def run(scenario, params, tape, detail=False):
                 probe("current.unreadable")
             elif lvl > 16:
                 probe("current.above_default")
-            if not params["names"]:
-                await one(ez, current, {}, set(), f"current={lvl}")
+            await one(ez, current, {}, set(), f"current={lvl}")
+            base = list(last["cfg"])
             for n in params["names"]:
                 await one(ez, current, {n: None}, set(), f"current={lvl}")
                 vals = valid_values(V, n)
                 for v in vals[:: params.get("step", 1)]:
                     await one(ez, current, {n: v}, set(), f"current={lvl}")
+                # ... and afterwards a write WITHOUT overrides (another radio, a later start-up with the option removed): what bellows writes on
+                # its own must not depend on what some earlier call was given
+                await one(ez, current, {}, set(), f"current={lvl}, no overrides, after earlier calls that overrode {n}")
+                probe("plain_write_after_overrides")
+                if last["cfg"] != base:
+                    diff = sorted(set(last["cfg"]) ^ set(base))
+                    viol.append(("C16.user", "stale-override", f"v{V} current={lvl}: write_config({{}}) after earlier calls with overrides of {n} wrote {[(name_of.get(i, i), v, s_) for (i, v, s_) in diff]} "
+                                 f"differently from the same call made before any override was given"))
         elif scenario == "slow":
             current = {int(e): 1 for e in t.EzspConfigId}
             await one(ez, current, {}, set(), "baseline")
